@@ -22,6 +22,7 @@ META = {
 
 ALPHA = 'AFMRSPafmspx'
 NULLS = '12345'
+AGAIN = 'BGTQ'
 
 
 def gen_histories(chk, n, maxlen):
@@ -34,7 +35,7 @@ def gen_histories(chk, n, maxlen):
     while len(hs) < n:
         k = rng.randint(1, maxlen)
         w = rng.choice([(8, 1), (3, 1), (1, 1)])  # insertion-heavy, mixed, clear-heavy
-        hs.append(''.join((rng.choice('AFMSPRM') if rng.random() < 0.9 else rng.choice(NULLS)) if rng.random() < w[0] / (w[0] + w[1]) else rng.choice('afmspx') for _ in range(k)))
+        hs.append(''.join((rng.choice('AFMSPRM') if rng.random() < 0.8 else rng.choice(NULLS + AGAIN + AGAIN)) if rng.random() < w[0] / (w[0] + w[1]) else rng.choice('afmspx') for _ in range(k)))
     return hs
 
 
@@ -60,6 +61,8 @@ def run():
     hs = gen_histories(chk, 40000 if thorough else 3000, 40 if thorough else 30)
     ex_len = 5 if thorough else 4
     hs += list(exhaustive(ex_len))
+    # the same object appended again: every history of length <= 4 over insertions and again-calls that has one
+    hs += [''.join(t) for k in (2, 3, 4) for t in itertools.product('AFMSP' + AGAIN, repeat=k) if set(t) & set(AGAIN)]
     # null-pointer calls: every history of length <= 3 over insertions and null calls, extended by one insertion of each class
     hs += [''.join(t) + tail for k in (1, 2, 3) for t in itertools.product('AFMSP' + NULLS, repeat=k) if set(t) & set(NULLS) for tail in 'AFMSP']
     rc1, out_i, err_i = vlib.run_lines(impl, hs)
@@ -99,7 +102,7 @@ def run():
         _, o, _ = vlib.run_lines(impl, [small])
         _, sp, _ = vlib.run_lines(model, [small], ['spec'])
         chk.fail('handler list violates class order / stability / single formatter after history %r' % small,
-                 {'history': small, 'alphabet': 'A F M S P = appendAttrHandler appendFilter setFormatter appendSink appendPipeline; R = setFormatter with the same formatter object as the last M/R; 1..5 = appendAttrHandler/appendFilter/setFormatter/appendSink/appendPipeline(nullptr); a f m s p = clear<Class>; x = clear()',
+                 {'history': small, 'alphabet': 'A F M S P = appendAttrHandler appendFilter setFormatter appendSink appendPipeline; R = setFormatter with the same formatter object as the last M/R; 1..5 = appendAttrHandler/appendFilter/setFormatter/appendSink/appendPipeline(nullptr); B G T Q = appendAttrHandler/appendFilter/appendSink/appendPipeline with the object most recently created for that class again; a f m s p = clear<Class>; x = clear()',
                   'implementation_lists_after_each_call': o[0] if o else None, 'specified_lists': sp[0] if sp else None,
                   'falsified_histories': len(falsified), 'kind': 'order'}, kind='order')
     elif dis_spec:
@@ -129,7 +132,7 @@ def run():
         chk.broke('correspondence: model (with the translated configuration) and SortedPipeline differ on %d histories, e.g. %r' % (len(dis_model), h),
                   {'kind': 'correspondence', 'history': h})
     distinct = len(set(hs))
-    chk.cov.update({'evaluations': len(hs), 'distinct_nontrivial': len({h for h in hs if len(set(h) & set('AFMRSP')) >= 2}),
+    chk.cov.update({'evaluations': len(hs), 'distinct_nontrivial': len({h for h in hs if len(set(h) & set('AFMRSPBGTQ')) >= 2}),
                     'rule': 'random histories over the 12 calls (three insertion/clear mixes, all 120 class orders as prefixes) plus every '
                             'history of length <= %d; non-trivial = inserts at least two different classes' % ex_len,
                     'exhaustive_up_to_length': ex_len, 'distinct': distinct,
